@@ -158,3 +158,4 @@ fn message_from_slice_bounded() {
         Err(_) => {}
     }
 }
+
